@@ -106,6 +106,8 @@ func c10sBuild(root string) *c10sFamily {
 
 	// link collection main.xks <-> sub.owners, as the entity stores of the suite define them
 	m.AddLinkCollection(m.GetSymbol("xks"), s.GetSymbol("owners"))
+	// names that clash between the stores (a scalar here, a set / fk set / map there): c10_nest.go
+	c10nAddClashSymbols(f)
 	return f
 }
 
@@ -200,6 +202,7 @@ func c10sWriteMain(store *boltz.TypedBucket, id string) {
 		c10sSetList(e, "xks", c10sStrs("s1-full", "s2-absent", "s3-nil"))
 		c10sSetList(e, "xms", c10sStrs("m1-full", "m2-full", "m3-absent"))
 		e.PutMap("tags", map[string]interface{}{"k": "s", "x-y": "v", "n": int64(1)}, nil, false)
+		c10nWriteClash(e, 0)
 	case "m2-full":
 		scalarsB()
 		c10sSetList(e, "ss", c10sStrs("s"))
@@ -213,6 +216,7 @@ func c10sWriteMain(store *boltz.TypedBucket, id string) {
 		c10sSetList(e, "xks", c10sStrs("s1-full"))
 		c10sSetList(e, "xms", c10sStrs("m2-full"))
 		e.PutMap("tags", map[string]interface{}{"k": 1.5, "x-y": true, "deep": map[string]interface{}{"j": "s"}}, nil, true)
+		c10nWriteClash(e, 0)
 	case "m3-absent":
 		// the entity bucket and nothing else: no field, no list bucket, no prefix bucket, no map bucket
 	case "m4-nil":
@@ -279,6 +283,7 @@ func c10sWriteLinked(root *boltz.TypedBucket) {
 	c10sSetList(e, "xks", c10sStrs("l1-full", "l2-absent", "gone"))
 	c10sSetList(e, "owners", c10sStrs("m1-full", "m2-full", "m6-sets"))
 	e.PutMap("tags", map[string]interface{}{"k": "s"}, nil, false)
+	c10nWriteClash(e, 1)
 	subs.GetOrCreatePath("s2-absent")
 	e = subs.GetOrCreatePath("s3-nil")
 	for _, k := range []string{"s", "i", "a", "name", "v", "x", "xk"} {
@@ -292,6 +297,7 @@ func c10sWriteLinked(root *boltz.TypedBucket) {
 	e = leaves.GetOrCreatePath("l1-full")
 	e.SetString("s", "s", nil).SetInt64("i", 1, nil).SetBool("a", true, nil)
 	c10sSetList(e, "xss", c10sStrs("s", "t"))
+	c10nWriteClash(e, 2)
 	leaves.GetOrCreatePath("l2-absent")
 	for _, b := range []*boltz.TypedBucket{subs, leaves, e} {
 		if b.HasError() {
